@@ -9,6 +9,7 @@ import (
 	"net"
 	"sort"
 	"strings"
+	"sync"
 	"time"
 
 	"github.com/ethereum/go-ethereum/accounts/abi/bind"
@@ -36,6 +37,7 @@ type recNode struct {
 	// slow: every call to the node takes this long (virtual time, controlled executions only) and,
 	// like a real RPC client, fails once its context has ended
 	slow time.Duration
+	mu   sync.Mutex // (the node may be served over RPC to a real agent process)
 }
 
 func (n *recNode) rpcDelay(ctx context.Context) error {
@@ -59,14 +61,18 @@ func (n *recNode) AddTrustedPeer(ctx context.Context, id string) error {
 	if err := n.rpcDelay(ctx); err != nil {
 		return err
 	}
+	n.mu.Lock()
 	n.calls = append(n.calls, "trust:"+id)
+	n.mu.Unlock()
 	return nil
 }
 func (n *recNode) RemoveTrustedPeer(ctx context.Context, id string) error {
 	if err := n.rpcDelay(ctx); err != nil {
 		return err
 	}
+	n.mu.Lock()
 	n.calls = append(n.calls, "untrust:"+id)
+	n.mu.Unlock()
 	if n.fail == "untrust" {
 		return errors.New("the node refuses to un-trust this peer (injected)")
 	}
@@ -76,6 +82,8 @@ func (n *recNode) ConnectPeer(ctx context.Context, uri string) error {
 	if err := n.rpcDelay(ctx); err != nil {
 		return err
 	}
+	n.mu.Lock()
+	defer n.mu.Unlock()
 	n.calls = append(n.calls, "connect:"+uri)
 	if id, host, ok := c18Parse(uri); ok {
 		p := ethnode.PeerInfo{ID: id}
@@ -88,6 +96,8 @@ func (n *recNode) DisconnectPeer(ctx context.Context, id string) error {
 	if err := n.rpcDelay(ctx); err != nil {
 		return err
 	}
+	n.mu.Lock()
+	defer n.mu.Unlock()
 	n.calls = append(n.calls, "disconnect:"+id)
 	if n.fail == "disconnect" {
 		return errors.New("the node refuses to disconnect this peer (injected)")
@@ -105,6 +115,8 @@ func (n *recNode) Peers(ctx context.Context) ([]ethnode.PeerInfo, error) {
 	if err := n.rpcDelay(ctx); err != nil {
 		return nil, err
 	}
+	n.mu.Lock()
+	defer n.mu.Unlock()
 	return append([]ethnode.PeerInfo{}, n.peers...), nil
 }
 func (n *recNode) BlockNumber(ctx context.Context) (uint64, error) { return 42, nil }
@@ -261,7 +273,9 @@ func (r c18Round) String() string {
 	if r.localAddr0 != "" {
 		s += fmt.Sprintf(" peer0-connected-from=%s listed-as=%s", r.localAddr0, strings.TrimPrefix(r.activeEntry0, "enode://"+c18Ids[0]))
 	}
-	if r.driver != "" {
+	if r.driver == "binary" {
+		s += " (agent binary)"
+	} else if r.driver != "" {
 		s += " through-the-real-" + r.kind.String() + "-driver"
 	}
 	return s
@@ -285,6 +299,12 @@ func shortIDs(l []string) []string {
 
 // c18Run executes one round on the real agent and judges it.
 func c18Run(u *vh.U, r c18Round, node *recNode, first bool, a *agent.Agent, sp *scriptPool) (ok bool) {
+	return c18RunExec(u, r, node, sp, func() error { return a.UpdatePeers(context.Background(), sp) })
+}
+
+// c18RunExec: the round is carried out by exec (the in-process agent's UpdatePeers, or the agent
+// binary started against a served node and pool) and judged on what node and pool recorded.
+func c18RunExec(u *vh.U, r c18Round, node *recNode, sp *scriptPool, exec func() error) (ok bool) {
 	// expected sets (model)
 	local := map[string]string{} // id -> compared host
 	for _, p := range node.peers {
@@ -314,7 +334,7 @@ func c18Run(u *vh.U, r c18Round, node *recNode, first bool, a *agent.Agent, sp *
 	node.calls = nil
 	sp.peerReqs = nil
 	var err error
-	if p := vh.Recover(func() { err = a.UpdatePeers(context.Background(), sp) }); p != "" {
+	if p := vh.Recover(func() { err = exec() }); p != "" {
 		u.Violate("agent/panic", fmt.Sprintf("%s: %s", r, p), nil)
 		return false
 	}
@@ -744,7 +764,7 @@ func init() {
 			for s := 0; s < n; s++ {
 				us = append(us, c18Single(s, n))
 			}
-			us = append(us, c18ErrorsAndHistories(), c18SlowRound(), c18NodeFaults(), c18AddressFamilies())
+			us = append(us, c18ErrorsAndHistories(), c18SlowRound(), c18NodeFaults(), c18AddressFamilies(), c18AgentBinary())
 			for s := 0; s < 4; s++ {
 				us = append(us, c18Drivers(s, 4))
 			}
